@@ -72,3 +72,26 @@ package middleware
 //@   ensures[token-presented] gVerified ==> authHeader(c) == "Bearer" + " " + gVerifyArgTok && gVerifyArgTenant == hdrTenant[c.Request.Header]
 //@   ensures[abort-otherwise] !gNext ==> gAborted && (gStatus == 401 || gStatus == 500)
 //@   ensures[401-declared] !gNext && (!gVerified || errIs(gVerifyErr, auth.ErrInvalidToken) || errIs(gVerifyErr, auth.ErrExpiredToken) || errIs(gVerifyErr, auth.ErrUnknownTenant)) ==> gStatus == 401
+
+// ---- access log (C08): the request is logged after it was served, never rewritten before ----
+// The header filters modify the header maps they are given; the middleware
+// therefore runs the rest of the chain first and filters afterwards.
+
+//@ ghost gHdrFilteredBeforeNext bool
+
+//@ contract (*logHeaderFilter).Filter
+//@   trusted deletes from the given header map the names not allowed / blocked (two loops over the map)
+//@   modifies-all $gHdrFilteredBeforeNext
+//@   ghost-set gHdrFilteredBeforeNext = old(gHdrFilteredBeforeNext) || !gNext
+//@   ensures[same-map] result == h
+//@ extern net/http.Header.Del
+//@   modifies-all $gHdrFilteredBeforeNext
+//@   ghost-set gHdrFilteredBeforeNext = old(gHdrFilteredBeforeNext) || !gNext
+
+//@ contract NewLogger$1
+//@   serves C08 C09
+//@   requires[context] c != nil && c.Request != nil && c.Request.URL != nil && c.Writer != nil
+//@   requires[fresh-step] !gNext && !gHdrFilteredBeforeNext
+//@   ensures[chain-runs] gNext
+//@   ensures[headers-untouched-until-served] !gHdrFilteredBeforeNext
+//@   ensures[answers-nothing] gAborted == old(gAborted) && gStatus == old(gStatus) && gWrote == old(gWrote)
